@@ -1,1 +1,170 @@
--- property theorems of C06 (not built yet)
+/-
+  C06 — every sampler is handed the Gaussian log-likelihood of the binned model.
+  Theorems about `TaurexModel/Likelihood.lean` (the definitions `driver_c06` executes), real carrier.
+  The forward model + binner is a parameter `fm` of the callback (it is real code in the correspondence check);
+  `InvalidModelException` is a constructor (`ModelOut.invalid`) of its result type.
+  `chiSq obs σ m = Σ_i ((obs_i - m_i)/σ_i)²` and `logNorm σ = Σ_i log(σ_i √(2π))` are defined in
+  `Proofs/C06Lemmas.lean`.  Guards: one error bar and one model value per observed bin, at least one bin,
+  error bars positive (the quantifier's "error bars"; `log` and `/` are total on ℝ but stand for the float
+  operations only there).
+-/
+import Proofs.C06Lemmas
+
+namespace Taurex.C06
+open Taurex.Likelihood
+
+/-- For a valid, finite binned model the likelihood is `-Σ log(σ√2π) - χ²/2` (also when `χ² = 0`). -/
+theorem loglike_gaussian (obs sig m : List ℝ) (hs : sig.length = obs.length) (hm : m.length = obs.length)
+    (hne : obs ≠ []) (_hpos : ∀ s ∈ sig, 0 < s) :
+    loglike Real.pi obs sig (.ok (m.map some)) = .fin (-(logNorm sig) - chiSq obs sig m / 2) :=
+  loglike_ok_some obs sig m hs hm hne
+
+/-- `chiSq` / `logNorm` are the sums of the statement -/
+example (d s m : ℝ) (ds ss ms : List ℝ) :
+    chiSq (d :: ds) (s :: ss) (m :: ms) = ((d - m) / s) ^ 2 + chiSq ds ss ms ∧
+    logNorm (s :: ss) = Real.log (s * Real.sqrt (2 * Real.pi)) + logNorm ss := by
+  simp [chiSq, sqList, logNorm]
+
+example : ∃ obs sig m : List ℝ, sig.length = obs.length ∧ m.length = obs.length ∧ obs ≠ [] ∧
+    (∀ s ∈ sig, 0 < s) ∧ chiSq obs sig m = 5 :=
+  ⟨[1, 2], [1, 2], [2, 6], rfl, rfl, by simp, by norm_num, by norm_num [chiSq, sqList]⟩
+
+/-- The callback at a point `θ` of the sampled space: the forward model is evaluated at exactly the prior-transformed
+    values `prior_i(θ_i)` (in parameter order) and the result is the Gaussian log-likelihood of its binned output. -/
+theorem callback_gaussian (priors : List (Prior ℝ)) (fm : List ℝ → ModelOut ℝ) (obs sig m theta : List ℝ)
+    (hlen : theta.length = priors.length)
+    (hfm : fm (List.zipWith (fun p v => p.prior v) priors theta) = .ok (m.map some))
+    (hs : sig.length = obs.length) (hm : m.length = obs.length) (hne : obs ≠ []) (hpos : ∀ s ∈ sig, 0 < s) :
+    loglikeCallback Real.pi priors fm obs sig theta = some (.fin (-(logNorm sig) - chiSq obs sig m / 2)) := by
+  unfold loglikeCallback updateModel
+  rw [if_pos hlen]
+  simp only [hfm]
+  rw [loglike_gaussian obs sig m hs hm hne hpos]
+
+/-- A perfect fit (observation equal to the binned model) has the maximal likelihood `-Σ log(σ√2π)`. -/
+theorem exact_fit (obs sig : List ℝ) (hs : sig.length = obs.length) (hne : obs ≠ []) (hpos : ∀ s ∈ sig, 0 < s) :
+    loglike Real.pi obs sig (.ok (obs.map some)) = .fin (-(logNorm sig)) := by
+  rw [loglike_gaussian obs sig obs hs rfl hne hpos, chiSq_self]
+  simp
+
+/-- The likelihood of any valid finite model is bounded by the normalisation term. -/
+theorem loglike_le_norm (obs sig m : List ℝ) (hs : sig.length = obs.length) (hm : m.length = obs.length)
+    (hne : obs ≠ []) (hpos : ∀ s ∈ sig, 0 < s) :
+    ∃ v, loglike Real.pi obs sig (.ok (m.map some)) = .fin v ∧ v ≤ -(logNorm sig) := by
+  refine ⟨_, loglike_gaussian obs sig m hs hm hne hpos, ?_⟩
+  have := chiSq_nonneg obs sig m
+  linarith
+
+/-- An `InvalidModelException` anywhere in model evaluation gives NaN — never a finite likelihood — and no exception
+    leaves the callback: for a vector of the right length the callback always returns a value. -/
+theorem invalid_not_finite (priors : List (Prior ℝ)) (fm : List ℝ → ModelOut ℝ) (obs sig theta : List ℝ)
+    (hlen : theta.length = priors.length) :
+    (∃ v, loglikeCallback Real.pi priors fm obs sig theta = some v) ∧
+    (fm (List.zipWith (fun p v => p.prior v) priors theta) = .invalid →
+      loglikeCallback Real.pi priors fm obs sig theta = some .nan) := by
+  unfold loglikeCallback updateModel
+  rw [if_pos hlen]
+  refine ⟨⟨_, rfl⟩, ?_⟩
+  intro h
+  simp only [h]
+  rfl
+
+example : loglike Real.pi [1, 2] [1, 1] (ModelOut.invalid : ModelOut ℝ) = .nan := rfl
+
+/-- NaN bins of the model are skipped by the sum (`np.nansum`); a model that is NaN in every bin gives NaN. -/
+theorem nan_bins (obs sig : List ℝ) (m : List (Option ℝ)) :
+    (chisq obs sig (.ok m) = .nan ∨
+      chisq obs sig (.ok m) = .fin (((residuals obs sig m).filterMap id).sum)) ∧
+    chisq obs sig (.ok (List.replicate obs.length none)) = .nan := by
+  constructor
+  · unfold chisq
+    by_cases h : (residuals obs sig m).all Option.isNone = true
+    · left; simp [h]
+    · right; simp [h, nansum_eq]
+  · unfold chisq
+    have : ∀ (o s : List ℝ) (n : Nat), (residuals o s (List.replicate n none)).all Option.isNone = true := by
+      intro o
+      induction o with
+      | nil => intro s n; cases s <;> cases n <;> simp [residuals]
+      | cons d ds ih =>
+        intro s n
+        cases s with
+        | nil => cases n <;> simp [residuals]
+        | cons s0 ss =>
+          cases n with
+          | zero => simp [residuals]
+          | succ k => simp [residuals, List.replicate, residSq, ih]
+    simp [this]
+
+example : chisq (α := Rat) [1, 2, 3] [1, 1, 1] (.ok [some 0, none, some 1]) = .fin 5 := by decide +kernel
+
+/-- The prior callback and `update_model` use the same index: entry `i` of the transformed cube is
+    `prior_i.sample(u_i)`, parameter `i` is written with `prior_i.prior(θ_i)`, and therefore the sampler's
+    `loglike(prior(u))` evaluates the forward model with parameter `i` equal to `prior_i.prior(prior_i.sample(u_i))`. -/
+theorem transform_order (priors : List (Prior ℝ)) (cube : List ℝ) (hlen : cube.length = priors.length) :
+    (∀ (i : Nat) (h : i < priors.length),
+      (priorTransform priors cube)[i]? = some ((priors[i]).sample (cube[i]'(hlen ▸ h)))) ∧
+    (∀ (i : Nat) (h : i < priors.length),
+      (updateModel priors cube).map (fun l => l[i]?) = some (some ((priors[i]).prior (cube[i]'(hlen ▸ h))))) ∧
+    updateModel priors (priorTransform priors cube) =
+      some (List.zipWith (fun p u => p.prior (p.sample u)) priors cube) := by
+  refine ⟨?_, ?_, ?_⟩
+  · intro i h
+    simp [priorTransform, h, hlen ▸ h]
+  · intro i h
+    unfold updateModel
+    rw [if_pos hlen]
+    simp [h, hlen ▸ h]
+  · unfold updateModel priorTransform
+    rw [if_pos (by simp [hlen])]
+    congr 1
+    clear hlen
+    induction priors generalizing cube with
+    | nil => simp
+    | cons p ps ih =>
+      cases cube with
+      | nil => simp
+      | cons u us => simp [ih]
+
+/-- The whole statement for a point `u` of the unit cube: what the sampler computes, `loglike(prior(u))`, is the
+    Gaussian log-likelihood of the binned forward model evaluated with parameter `i` set to
+    `prior_i.prior(prior_i.sample(u_i))`. -/
+theorem cube_gaussian (priors : List (Prior ℝ)) (fm : List ℝ → ModelOut ℝ) (obs sig m cube : List ℝ)
+    (hlen : cube.length = priors.length)
+    (hfm : fm (List.zipWith (fun p u => p.prior (p.sample u)) priors cube) = .ok (m.map some))
+    (hs : sig.length = obs.length) (hm : m.length = obs.length) (hne : obs ≠ []) (hpos : ∀ s ∈ sig, 0 < s) :
+    cubeLoglike Real.pi priors fm obs sig cube = some (.fin (-(logNorm sig) - chiSq obs sig m / 2)) := by
+  have h3 := (transform_order priors cube hlen).2.2
+  unfold cubeLoglike loglikeCallback
+  rw [h3]
+  simp only [hfm]
+  rw [loglike_gaussian obs sig m hs hm hne hpos]
+
+/-- a concrete instance: two parameters (one linear on [0, 2], one log on [1, 100]), the forward model `p ↦ [p₀, p₁]`,
+    cube point (1/2, 1/2) ↦ parameters (1, 10) -/
+example : List.zipWith (fun (p : Prior ℝ) u => p.prior (p.sample u)) [uniform 0 2, logUniform 0 2] [1 / 2, 1 / 2]
+    = [1, 10] := by
+  simp only [uniform, logUniform, pyMin, pyMax, Prior.prior, List.zipWith_cons_cons, List.zipWith_nil_right, pow10_real]
+  norm_num
+
+/-- the order matters: exchanging two priors of different supports changes the transformed point
+    (so `transform_order` is not vacuous for symmetric-looking cases) -/
+theorem perm_sensitive :
+    priorTransform [uniform (0 : ℝ) 1, uniform 10 20] [1 / 2, 1 / 4] ≠
+    priorTransform [uniform (10 : ℝ) 20, uniform 0 1] [1 / 2, 1 / 4] := by
+  simp only [priorTransform, uniform, pyMin, pyMax, List.zipWith_cons_cons, List.zipWith_nil_right]
+  norm_num
+
+/-- the default prior of a parameter in `log` mode samples `log10` of the bounds uniformly and writes `10**v` -/
+example : (defaultPrior (α := ℝ) true 1 100).isLog = true ∧ (defaultPrior (α := ℝ) false 1 100).isLog = false := by
+  simp [defaultPrior, logUniformLin, logUniform, uniform]
+
+/-- Fault sequences: the value returned for the `k`-th vector of any sequence is the callback of that vector alone —
+    an invalid vector earlier in the sequence cannot change a later evaluation. -/
+theorem fault_sequence (priors : List (Prior ℝ)) (fm : List ℝ → ModelOut ℝ) (obs sig : List ℝ)
+    (thetas : List (List ℝ)) (k : Nat) :
+    (runSequence Real.pi priors fm obs sig thetas)[k]? =
+      (thetas[k]?).map (loglikeCallback Real.pi priors fm obs sig) := by
+  simp [runSequence]
+
+end Taurex.C06
